@@ -281,6 +281,23 @@ func genC12(g *Rng, tier string, emit func(Op)) {
 				"vs": Is([]*big.Int{bi(1), bi(1), bi(1), bi(1)}), "v5": I(bi(1)), "l_d": 8, "sign": 1, "a": uint64(1), "k": I(falseBound)}}}
 			emit(verifyDOp(kp.id, tf, ctx, nonce, false, "rp-forged-nonunit-commitments", "reject").with("fkey", "C12/nonunit-commitments"))
 		}
+		// a junk range proof attached to the highest hidden index of a proof that has a gap below it
+		// (a disclosed attribute of value 0 is dropped: R^0 = 1): every carried range proof must
+		// still be checked and hashed
+		{
+			gc := issueCred(kp, secret, []*big.Int{m1, bi(0), g.bits(90)})
+			gp, err := gc.CreateDisclosureProof([]int{2}, nil, false, ctx, nonce)
+			if err != nil {
+				panic(err)
+			}
+			tg := proofDTree(gp)
+			delete(tg["a_disclosed"].(T), "2")
+			junk := cloneTree(tree["rangeproofs"].(T)["1"].([]any)[0]).(T)
+			junk["k"] = I(new(big.Int).Add(gc.Attributes[3], bi(1))) // claims attribute 3 >= its value + 1
+			junk["sign"], junk["a"] = 1, uint64(1)
+			tg["rangeproofs"] = T{"3": []any{junk}}
+			emit(verifyDOp(kp.id, tg, ctx, nonce, false, "rp-junk-above-gap", "reject").with("fkey", "C12/rangeproof-at-unchecked-index"))
+		}
 		// range proof removed: the remaining proof no longer matches its challenge
 		t4 := cloneTree(tree).(T)
 		delete(t4, "rangeproofs")
